@@ -53,7 +53,9 @@ def register(claim, not_yet):
           'outputs and repeated pull-backs through one retained graph.' + TIE + BRK,
           'Lean 4 adjointness theorems (q2c/c2q, symmetric colfilter, level-1 backward pass) + exact autograd correspondence + Jacobian oracle', 'DESIGN.md §4 C06', 'level >= 2 adjointness is oracle-decided: partial.')
     claim('C07',
-          'Proved for all sizes: correlation (any stride/dilation), index-vector padding and zero padding are linear, hence afb1d in symmetric mode is; the grouped convolution with the code weight '
+          'Proved for all sizes: correlation (any stride/dilation), index-vector padding, zero padding, take/drop, concatenation, roll and the wrap-around fold are linear list operators and '
+          'linearity is closed under composition and under choices that depend on lengths only; hence afb1d is linear in EVERY padding mode (zero, symmetric, reflect, periodic, periodization), '
+          'and whether it raises depends on the lengths only (afb1dOne_linear); the grouped convolution with the code weight '
           'cat([h0,h1]*C), groups=C applies the same two one-channel operators to every channel for every C, and raises iff a channel does (afb1dT_per_channel). All seven transforms are '
           'additionally checked on the real code: T(ax+by)=aT(x)+bT(y), T(0)=0, slice-alone = slice-of-batch, other slices irrelevant (exact on integers).' + TIE + BRK,
           'Lean 4 linearity + per-channel theorems + exact correspondence with N,C>1 + linearity/slice oracle', 'DESIGN.md §4 C07')
